@@ -121,6 +121,12 @@ fn check_pattern_exhaustiveness_stmt(statics: &mut StaticsContext, stmt: &Stmt) 
 fn check_pattern_exhaustiveness_expr(statics: &mut StaticsContext, expr: &Rc<Expr>) {
     match &*expr.kind {
         ExprKind::Match(scrutiny, arms) => {
+            // matches nested in the scrutinee or in the arms are checked too
+            check_pattern_exhaustiveness_expr(statics, scrutiny);
+            for arm in arms {
+                check_pattern_exhaustiveness_stmt(statics, &arm.stmt);
+            }
+
             if statics.solution_of_node(scrutiny.node()).is_none() {
                 return;
             }
